@@ -82,6 +82,7 @@ def run(ctx):
     ctx.exhaustive = True
     trs = []
     tid = 0
+    maps = {}
     all20 = "".join(common.AA)
     # (G) the real residue map of every size
     ev = []
@@ -103,11 +104,12 @@ def run(ctx):
             ctx.nontrivial.add((size, r))
         if okmap:
             ev.append({"q": "alphabetmap", "size": size, "map": m, "alphabet": alph})
+            maps[size] = dict(m)
             whole = reduce_call(lc.SP(all20), size)
             if whole[0] != "ok" or whole[1] != "".join(m[r] for r in all20):
                 ctx.violation("reduce-not-residue-by-residue", {"size": size, "seq": all20}, expected="".join(m[r] for r in all20), actual=whole)
     import numpy as np
-    for size in list(range(0, 26)) + ["8", "7", -2, "0", np.int64(0), np.int64(10), np.int64(7), 0.0, 12.0, 13.0]:
+    for size in list(range(-25, 26)) + ["8", "7", "-2", "-18", "0", np.int64(0), np.int64(10), np.int64(7), np.int64(-3), 0.0, 12.0, 13.0, 100, 256, 2 ** 31]:
         out = reduce_call(lc.SP("ACDKLW"), size)
         ctx.evaluations += 1
         ev.append({"q": "alphabetsize", "size": int(size), "exc": out[0] != "ok"})
@@ -118,6 +120,15 @@ def run(ctx):
             ctx.violation("alphabet-size-acceptance", {"size": repr(size)}, expected="rejected", actual=out)
     tid += 1
     trs.append({"tid": tid, "seq": list(all20), "ev": ev})
+    # beyond the random bound: a sequence of more than 1000 residues against the residue maps TLC has just verified
+    longseq = (common.random_sequences(ctx.rng, 1, 400, 300)[0] + "NQNQ" + all20) * 4
+    for size, m in maps.items():
+        out = reduce_call(lc.SP(longseq), size)
+        ctx.evaluations += 1
+        want = "".join(m[r] for r in longseq)
+        if out[0] != "ok" or out[1] != want or sorted(out[2]) != sorted(set(m.values())):
+            k = next((j for j in range(len(want)) if out[0] == "ok" and j < len(out[1]) and out[1][j] != want[j]), -1)
+            ctx.violation("reduce-not-residue-by-residue", {"size": size, "length": len(longseq), "first_difference": k}, expected=want[max(0, k - 3):k + 4], actual=(out[1][max(0, k - 3):k + 4] if out[0] == "ok" else out))
     # (V)
     nseq = ctx.pick(12, 100)
     seqs = common.random_sequences(ctx.rng, 2 * nseq, ctx.pick(60, 200), 1)
